@@ -7,14 +7,12 @@ import (
 	"github.com/flowmatters/openwater-core/zzverif/vsym"
 )
 
-// C20, the part a solver can decide.  The transcendental functions are contracts (sign,
-// monotonicity, tangent-line bounds, a quarter-step grid for 10^e), never numeric values, so
-// what is established is what follows from the *structure* of the kernel for every function
-// satisfying those contracts: the bisection bookkeeping, the ordering of the outputs, the
-// positivity of the vapour pressure, the reachability of the NaN return, monotonicity of the
-// dew point in humidity.  "Saturation vapour pressure strictly increasing with temperature"
-// needs quantitative derivative information about log10 and 10^x across two formulas and is
-// outside the claim (DESIGN §5).
+// C20.  The transcendental functions are contracts (sign, strict monotonicity, tangent-line and
+// pairwise concavity bounds, a quarter-step grid for 10^e), never numeric values, so what is
+// established follows from the *structure* of the kernel for every function satisfying those
+// contracts: the bisection bookkeeping, the ordering of the outputs, positivity and strict
+// monotonicity of the vapour pressure, unreachability of the NaN return, monotonicity of the dew
+// point in humidity.
 
 func c20between(x, a, b float64) bool {
 	return vsym.Or(vsym.And(a <= x, x <= b), vsym.And(b <= x, x <= a))
